@@ -229,6 +229,14 @@ class World:
             self.spells[a] = [sp_spell]
             prof.update(doc)
         ids = masterapi.create_apps(self.admin, name, prof, 1)
+        if a in self.names:
+            # the model name is re-used for a NEW instance: the previous instance
+            # (another ZooKeeper id) keeps a name of its own in every projection
+            old = self.names[a]
+            self.gen = getattr(self, 'gen', 0) + 1
+            self.ids[old] = '%s~%d' % (a, self.gen)
+            if a in self.spells:
+                self.spells[self.ids[old]] = self.spells[a]
         self.names[a] = ids[0]
         self.ids[ids[0]] = a
 
